@@ -38,6 +38,7 @@ type Tok struct {
 	Quote byte
 	Off   int // byte offset of the token after layout (for strings: of the opening quote)
 	End   int
+	Opt   bool // a comma the grammar does not require (between the members of an object literal, between match cases)
 }
 
 type ParenMode int
@@ -73,6 +74,11 @@ func (r *renderer) emit(kind TokKind, text string) {
 }
 func (r *renderer) word(s string)  { r.emit(TWord, s) }
 func (r *renderer) punct(s string) { r.emit(TPunct, s) }
+
+func (r *renderer) optComma() {
+	r.emit(TPunct, ",")
+	r.toks[len(r.toks)-1].Opt = true
+}
 
 // precedence levels (DESIGN §3.3); higher binds tighter
 const (
@@ -268,7 +274,7 @@ func (r *renderer) exprInner(e Expr, lead, noExtra bool) {
 		r.punct("{")
 		for i, k := range x.Keys {
 			if i > 0 {
-				r.punct(",")
+				r.optComma()
 			}
 			if i < len(x.Quoted) && x.Quoted[i] {
 				r.emit(TStr, k)
@@ -287,7 +293,7 @@ func (r *renderer) exprInner(e Expr, lead, noExtra bool) {
 		r.punct("{")
 		for i, c := range x.Cases {
 			if i > 0 {
-				r.punct(",")
+				r.optComma()
 			}
 			for j, p := range c.Pats {
 				if j > 0 {
